@@ -22,6 +22,7 @@ def main():
     ap.add_argument("--budget", type=float, help="seconds (thorough tier)")
     args = ap.parse_args()
     driver.reexec_deterministic()
+    driver.private_tmpdir()
     what = args.what.upper() if args.what[0] in "cC" else args.what
     if what in ("C08", "C09", "C10"):
         import importlib
